@@ -10,6 +10,7 @@ import (
 	"context"
 	"encoding/hex"
 	"fmt"
+	"sort"
 	"strconv"
 	"strings"
 
@@ -185,39 +186,48 @@ func (r *real) ExecHint(line string) (out string, twinLine string) {
 			o.Inject = k
 			o.InjectAt, _ = strconv.Atoi(n)
 		}
+		// pre-emption `inter=<k>:<id>`: before effect k of this invocation another reconciler (another
+		// work-queue partition) runs one whole invocation on the stores as they are then
+		var ires *v2sys.Result
+		interHints, interMid := "", "-"
+		if v, ok := kv(args[1:], "inter"); ok {
+			kS, bid, _ := strings.Cut(v, ":")
+			k, _ := strconv.Atoi(kS)
+			o.Before = func(j int) {
+				if j != k || ires != nil {
+					return
+				}
+				r2 := s.Run(bid, v2sys.RunOpts{Plugin: "ok", Dev: "ok", SyncOK: 1000000, InjectAt: -1})
+				ires = &r2
+				interHints = hintsFor(s, bid, "i.")
+				interMid = midState(s.State())
+			}
+		}
 		res := s.Run(args[0], o)
 		if res.Panic != "" {
 			return "panic " + res.Panic, line
+		}
+		if ires != nil && ires.Panic != "" {
+			return "panic (pre-empting invocation) " + ires.Panic, line
 		}
 		errS := "0"
 		if res.Err {
 			errS = "1"
 		}
-		f := strings.Split(args[0], ":")
-		switch f[0] {
-		case "tx":
-			i, _ := strconv.ParseUint(f[1], 10, 64)
-			if ord := s.ProposalOrder(i); ord != "" {
-				twinLine = line + " order=" + ord
+		twinLine = line + hintsFor(s, args[0], "") + interHints
+		iS := ""
+		if ires != nil {
+			e2 := "0"
+			if ires.Err {
+				e2 = "1"
 			}
-		case "prop":
-			twinLine = line + " vals=" + s.SideMap(f[1]) + " rb=" + s.RollbackValues(f[1], f[2])
-		case "mast":
-			twinLine = line + " master=" + s.Master(f[1])
-		case "cfg":
-			st := s.State()
-			if i := strings.Index(st, " LOG["); i >= 0 {
-				lg := strings.TrimSuffix(st[i+5:], "]")
-				if lg != "" {
-					twinLine = line + " devlog=" + lg
-				}
-			}
+			iS = fmt.Sprintf(" ires=%s/%s/%d/%s", ires.Requeue, e2, ires.Effects, interMid)
 		}
 		doc := ""
 		if res.Doc != nil {
 			doc = " doc=" + hex.EncodeToString(res.Doc)
 		}
-		return fmt.Sprintf("res requeue=%s err=%s effects=%d att=%d%s %s", res.Requeue, errS, res.Effects, res.Attempts, doc, s.State()), twinLine
+		return fmt.Sprintf("res requeue=%s err=%s effects=%d att=%d%s%s %s", res.Requeue, errS, res.Effects, res.Attempts, doc, iS, s.State()), twinLine
 	case "v2.state":
 		return s.State(), line
 	case "v2.drain":
@@ -226,4 +236,54 @@ func (r *real) ExecHint(line string) (out string, twinLine string) {
 		return fmt.Sprintf("drained sweeps=%d quiescent=%v %s", n, ok, s.State()), line
 	}
 	return "bad-op", line
+}
+
+// hintsFor returns the hints the twin needs to follow the choices Go left open in the last invocation
+// of id (order of the per-target changes, resulting side map and rollback values, elected relation,
+// order of the re-sync requests), each key prefixed with pfx.
+func hintsFor(s *v2sys.Sys, id string, pfx string) string {
+	f := strings.Split(id, ":")
+	switch f[0] {
+	case "tx":
+		i, _ := strconv.ParseUint(f[1], 10, 64)
+		if ord := s.ProposalOrder(i); ord != "" {
+			return " " + pfx + "order=" + ord
+		}
+	case "prop":
+		return " " + pfx + "vals=" + s.SideMap(f[1]) + " " + pfx + "rb=" + s.RollbackValues(f[1], f[2])
+	case "mast":
+		return " " + pfx + "master=" + s.Master(f[1])
+	case "cfg":
+		st := s.State()
+		if i := strings.Index(st, " LOG["); i >= 0 {
+			lg := strings.TrimSuffix(st[i+5:], "]")
+			if lg != "" {
+				return " " + pfx + "devlog=" + lg
+			}
+		}
+	}
+	return ""
+}
+
+// midState is the cursor/term projection of every configuration right after the pre-empting
+// invocation ran: target.committed.applied.master.term.appliedTerm joined by '+', by target.
+func midState(state string) string {
+	st, ok := Parse(state)
+	if !ok {
+		return "-"
+	}
+	var ts []int
+	for t := range st.Cfg {
+		ts = append(ts, t)
+	}
+	sort.Ints(ts)
+	var parts []string
+	for _, t := range ts {
+		c := st.Cfg[t]
+		parts = append(parts, fmt.Sprintf("%d.%d.%d.%d.%d.%d", t, c.Committed, c.Applied, c.Master, c.Term, c.AppliedTerm))
+	}
+	if len(parts) == 0 {
+		return "-"
+	}
+	return strings.Join(parts, "+")
 }
